@@ -3,6 +3,7 @@
 set -e
 cd "$(dirname "$0")/../checker"
 export GOFLAGS=-mod=mod GOPROXY=off GOSUMDB=off GOTOOLCHAIN=local GOWORK=off
+unset GOEXPERIMENT GOOS GOARCH
 GO=go1.26.8
 command -v $GO >/dev/null 2>&1 || GO=/opt/veriftools/go1.26.8/bin/go
 mkdir -p ../bin
